@@ -26,6 +26,13 @@ def compatible_partner(rng, sh):
     return t
 
 
+def agree(case, impl, model):
+    if case.startswith("ew2@"):
+        import vlib
+        return vlib.table_agree(impl, model, 2)
+    return None
+
+
 def gen(seed, tier):
     rng = random.Random(seed)
     out = []
@@ -35,6 +42,16 @@ def gen(seed, tier):
         out.append(f"broadcast@{ty} {arr(s1)} {arr(s2, base=100)}")
         out.append(f"zip@{ty} {arr(s1)} {arr(s2, base=100)}")
         out.append(f"broadcast_to@{ty} {arr(s1)} {lst(s2)}")
+    # the broadcast of operands of DIFFERENT element types (values against a parameter array: round with an array of
+    # decimal places) follows the same rule — every pair of shapes, so that both operands are stretched, or the
+    # parameter only adds leading axes (seeded change C03m: the common shape was taken from the larger operand)
+    for k, (s1, s2) in enumerate(itertools.product(shs, repeat=2)):
+        if tier == "quick" and k % 2 and len(s1) + len(s2) > 4:
+            continue
+        ty = "f64p" if k % 3 == 0 else "i32"
+        e1 = [rng.randrange(20) for _ in range(prod(s1))] if ty == "f64p" else [rng.randint(-99, 99) for _ in range(prod(s1))]
+        e2 = [rng.randint(-1, 2) for _ in range(prod(s2))]
+        out.append(f"ew2@{ty} s{'round'.encode().hex()} {arr(s1, e1)} {arr(s2, e2)} z2 l")
     sh2 = list(shapes(2, 3))
     for t in itertools.product(sh2, repeat=3):
         out.append("broadcast_arrays L3 " + " ".join(arr(s, base=10 * i) for i, s in enumerate(t)))
